@@ -170,6 +170,21 @@ def run_case(case, ctx):
                                 'schedule %r' % (ext,), rt):
             break
     model.message_order = saved
+    # the same container object, edited in place by the caller (what an optimiser stepping its parameters does), asked again
+    if case['np_seed'] % 3 == 1 and len(case['pots']) >= 1 and case['scale'] <= 1e3:
+        j = int(rng.randint(len(case['pots'])))
+        src, arr = case['pots'][j]
+        bump = rng.normal(size=np.shape(arr)) * max(1.0, case['scale'])
+        pots2 = [(s_, (a_ + bump) if k_ == j else a_) for k_, (s_, a_) in enumerate(case['pots'])]
+        host = next(cl for cl in model.cliques if set(src) <= set(cl))
+        f_ = pot[host]
+        with np.errstate(invalid='ignore'):
+            f_.values += oracles.align(bump, src, list(f_.domain.attrs), list(f_.domain.shape))
+        P2 = oracles.joint(attrs, shape, pots2, total)
+        with np.errstate(all='ignore'):
+            mu3 = model.belief_propagation(pot)
+        ctx.tag('same_container_edited_in_place')
+        _check_marginals(ctx, mu3, model, P2, attrs, total, 'bp_vs_bruteforce', 'belief_propagation after the caller edited the same potentials object in place', _rtol(_maxabs(pot)))
     ctx.stat('distinct_schedules_per_case', len(seen_orders))
     ctx.mon('schedules_tried', len(seen_orders))
     # alternative elimination order: same source potentials on another tree
